@@ -120,11 +120,19 @@ static MPT_STRUCT(buffer) *_mpt_buffer_map_detach(MPT_STRUCT(buffer) *ptr, size_
 	size_t old;
 	
 	if (b->_ref._val == 1
-	 && !(b->_flags & MPT_ENUM(BufferImmutable))) {
+	 && !(b->_flags & MPT_ENUM(BufferImmutable))
+	 && len <= b->buf._size) {
 		return &b->buf;
 	}
 	/* only detach raw buffer */
 	if (b->buf._content_traits) {
+		errno = ENOTSUP;
+		return 0;
+	}
+	/* block copy of shared data */
+	if (b->_ref._val > 1
+	 && (b->_flags & MPT_ENUM(BufferNoCopy))
+	 && b->buf._used) {
 		errno = ENOTSUP;
 		return 0;
 	}
